@@ -864,8 +864,6 @@ def _inline_read_aliases(fn, strict=False):
     def read_chain(e):
         if isinstance(e, ast.Call) and isinstance(e.func, ast.Name) and e.func.id == "len" and len(e.args) == 1 and not e.keywords:
             e = e.args[0]            # the size of a container that nothing on the way writes to
-            if isinstance(e, ast.Name) and not _LENIENT[0]:
-                return False         # canonical forms keep (and introduce, see _len_once) the temporary
         while isinstance(e, (ast.Attribute, ast.Subscript)):
             if isinstance(e, ast.Subscript) and not isinstance(e.slice, ast.Constant):
                 return False
@@ -1287,6 +1285,62 @@ def _decide_test(test, x, values):
     return rs.pop() if len(rs) == 1 else None
 
 
+def _tuple_assign_rewrite(st):
+    """T1, T2 = (A1, A2) if c else (B1, B2)   ->   if c: T1, T2 = A1, A2  else: T1, T2 = B1, B2
+    T1, T2 = V1, V2  ->  T1 = V1; T2 = V2   when no value reads an earlier (really assigned) target and nothing that
+    can raise comes after a real assignment (``x = x`` is none and goes).  Returns the replacement statements or None."""
+    if not (isinstance(st, ast.Assign) and len(st.targets) == 1 and isinstance(st.targets[0], ast.Tuple)
+            and all(isinstance(t, ast.Name) for t in st.targets[0].elts)):
+        return None
+    tg = st.targets[0]
+    if isinstance(st.value, ast.IfExp):
+        def arity_ok(e):
+            if isinstance(e, ast.IfExp):
+                return arity_ok(e.body) and arity_ok(e.orelse)
+            return isinstance(e, ast.Tuple) and len(e.elts) == len(tg.elts) and not any(isinstance(x, ast.Starred) for x in e.elts)
+        if not arity_ok(st.value):
+            return None
+
+        def mk(v):
+            t2 = ast.Tuple(elts=[ast.Name(id=t.id, ctx=ast.Store()) for t in tg.elts], ctx=ast.Store())
+            return ast.Assign(targets=[t2], value=v, lineno=st.lineno, col_offset=0)
+        return [ast.If(test=st.value.test, body=[mk(st.value.body)], orelse=[mk(st.value.orelse)], lineno=st.lineno, col_offset=0)]
+    if isinstance(st.value, ast.Tuple) and len(st.value.elts) == len(tg.elts) \
+            and not any(isinstance(x, ast.Starred) for x in st.value.elts) and len({t.id for t in tg.elts}) == len(tg.elts):
+        real, seq = set(), []
+        later_targets = [t.id for t in tg.elts]
+        for k, (t_, v_) in enumerate(zip(tg.elts, st.value.elts)):
+            selfish = isinstance(v_, ast.Name) and v_.id == t_.id
+            if real and not isinstance(v_, (ast.Name, ast.Constant)):
+                return None
+            if {n_.id for n_ in _names(v_, ast.Load)} & real:
+                return None
+            if not selfish:
+                real.add(t_.id)
+                seq.append(ast.Assign(targets=[ast.Name(id=t_.id, ctx=ast.Store())], value=v_, lineno=st.lineno, col_offset=0))
+        return seq
+    return None
+
+
+def _tuple_assign_prepass(f):
+    changed = True
+    rounds = 0
+    while changed and rounds < 6:
+        changed = False
+        rounds += 1
+        for n in ast.walk(f):
+            for fld in ("body", "orelse", "finalbody"):
+                blk = getattr(n, fld, None)
+                if isinstance(blk, list) and blk and isinstance(blk[0], ast.stmt):
+                    i = 0
+                    while i < len(blk):
+                        rew = _tuple_assign_rewrite(blk[i])
+                        if rew is not None:
+                            blk[i:i + 1] = rew or [ast.Pass()]
+                            changed = True
+                        i += 1
+
+
 def _norm_simple(stmts, ctx):
     """statement-local rewrites inside one block (no nesting changes)"""
     stmts = [s for s in stmts if not isinstance(s, ast.Pass)]
@@ -1318,6 +1372,11 @@ def _norm_simple(stmts, ctx):
                     changed = True
                     i += 1
                     continue
+            rew = _tuple_assign_rewrite(st)
+            if rew is not None:
+                stmts[i:i + 1] = rew
+                changed = True
+                continue
             # for A, B in product(X, Y): BODY   ->   for A in X: for B in Y: BODY      (X, Y lists built in this function
             # that BODY does not touch; no ``break``: it would only leave the inner loop)
             if isinstance(st, ast.For) and not st.orelse and isinstance(st.target, ast.Tuple) and len(st.target.elts) == 2 \
@@ -3068,6 +3127,7 @@ def canonical_ast(fn, helpers, methods=None, hier=None, segment=False):
     helpers = {k: _clean(v) for k, v in allh.items() if k in used}
     methods = {k: _clean(v) for k, v in allm.items() if k in used}
     from .inline import Inliner, run_inliner
+    _local_lambdas_to_defs(f)
     for _ in range(3):
         inl = Inliner(helpers, methods or {})
         run_inliner(inl, f, frozenset())
@@ -3114,6 +3174,7 @@ def canonical_ast(fn, helpers, methods=None, hier=None, segment=False):
     ast.fix_missing_locations(f)
     f.body = docstring_free(f.body)
     _private_list_resets(f)
+    _tuple_assign_prepass(f)
     if not segment:
         for _ in range(3):
             if not _inline_read_aliases(f, strict=True):
@@ -3397,6 +3458,39 @@ def adopt_segments(tree, ref_tree, hier_cur=None, hier_ref=None, skip=()):
         if ad.adopted:
             done[key] = ad.adopted
     return done
+
+
+def _local_lambdas_to_defs(f):
+    """``name = lambda args: E`` (name bound once in the function and only ever called) is the local function
+    ``def name(args): return E`` - which the in-liner knows how to treat"""
+    stores, loads, calls = {}, {}, {}
+    for n in ast.walk(f):
+        if isinstance(n, ast.Name):
+            if isinstance(n.ctx, ast.Load):
+                loads[n.id] = loads.get(n.id, 0) + 1
+            else:
+                stores[n.id] = stores.get(n.id, 0) + 1
+        elif isinstance(n, ast.Call) and isinstance(n.func, ast.Name):
+            calls[n.func.id] = calls.get(n.func.id, 0) + 1
+        elif isinstance(n, (ast.arg,)):
+            stores[n.arg] = stores.get(n.arg, 0) + 2
+        elif isinstance(n, FuncTypes) and n is not f:
+            stores[n.name] = stores.get(n.name, 0) + 2
+    changed = False
+    for blk in [b for n in ast.walk(f) for b in (getattr(n, "body", None), getattr(n, "orelse", None), getattr(n, "finalbody", None))
+                if isinstance(b, list) and b and isinstance(b[0], ast.stmt)]:
+        for i, st in enumerate(blk):
+            if isinstance(st, ast.Assign) and len(st.targets) == 1 and isinstance(st.targets[0], ast.Name) \
+                    and isinstance(st.value, ast.Lambda):
+                nm = st.targets[0].id
+                a = st.value.args
+                if stores.get(nm) == 1 and loads.get(nm, 0) >= 1 and loads.get(nm) == calls.get(nm) \
+                        and not a.defaults and not a.kw_defaults and not a.vararg and not a.kwarg:
+                    d = lambda_to_def(st)
+                    if d is not None:
+                        blk[i] = d
+                        changed = True
+    return changed
 
 
 def lambda_to_def(assign):
